@@ -305,39 +305,41 @@ func repeatGuard(s string, n int) string {
 }
 
 var natives = map[string]nativeFn{
-	"strings.ToUpper":        wrapNative(strings.ToUpper),
-	"strings.ToLower":        wrapNative(strings.ToLower),
-	"strings.ReplaceAll":     wrapNative(strings.ReplaceAll),
-	"strings.Replace":        wrapNative(strings.Replace),
-	"strings.Contains":       wrapNative(strings.Contains),
-	"strings.Index":          wrapNative(strings.Index),
-	"strings.IndexByte":      wrapNative(strings.IndexByte),
-	"strings.LastIndex":      wrapNative(strings.LastIndex),
-	"strings.Count":          wrapNative(strings.Count),
-	"strings.Repeat":         wrapNative(repeatGuard),
-	"strings.Trim":           wrapNative(strings.Trim),
-	"strings.TrimLeft":       wrapNative(strings.TrimLeft),
-	"strings.TrimRight":      wrapNative(strings.TrimRight),
-	"strings.TrimSpace":      wrapNative(strings.TrimSpace),
-	"strings.TrimPrefix":     wrapNative(strings.TrimPrefix),
-	"strings.TrimSuffix":     wrapNative(strings.TrimSuffix),
-	"strings.Split":          wrapNative(strings.Split),
-	"strings.Join":           wrapNative(strings.Join),
-	"strings.HasPrefix":      wrapNative(strings.HasPrefix),
-	"strings.HasSuffix":      wrapNative(strings.HasSuffix),
-	"strings.EqualFold":      wrapNative(strings.EqualFold),
-	"strings.Fields":         wrapNative(strings.Fields),
-	"strconv.ParseInt":       wrapNative(strconv.ParseInt),
-	"strconv.ParseUint":      wrapNative(strconv.ParseUint),
-	"strconv.ParseFloat":     wrapNative(strconv.ParseFloat),
-	"strconv.Atoi":           wrapNative(strconv.Atoi),
-	"strconv.Itoa":           wrapNative(strconv.Itoa),
-	"strconv.FormatInt":      wrapNative(strconv.FormatInt),
-	"strconv.FormatUint":     wrapNative(strconv.FormatUint),
-	"strconv.FormatFloat":    wrapNative(func(f float64, fmtc byte, prec, bitSize int) string { return strconv.FormatFloat(f, fmtc, prec, bitSize) }),
-	"strconv.Quote":          wrapNative(strconv.Quote),
-	"html.EscapeString":      wrapNative(html.EscapeString),
-	"html.UnescapeString":    wrapNative(html.UnescapeString),
+	"strings.ToUpper":    wrapNative(strings.ToUpper),
+	"strings.ToLower":    wrapNative(strings.ToLower),
+	"strings.ReplaceAll": wrapNative(strings.ReplaceAll),
+	"strings.Replace":    wrapNative(strings.Replace),
+	"strings.Contains":   wrapNative(strings.Contains),
+	"strings.Index":      wrapNative(strings.Index),
+	"strings.IndexByte":  wrapNative(strings.IndexByte),
+	"strings.LastIndex":  wrapNative(strings.LastIndex),
+	"strings.Count":      wrapNative(strings.Count),
+	"strings.Repeat":     wrapNative(repeatGuard),
+	"strings.Trim":       wrapNative(strings.Trim),
+	"strings.TrimLeft":   wrapNative(strings.TrimLeft),
+	"strings.TrimRight":  wrapNative(strings.TrimRight),
+	"strings.TrimSpace":  wrapNative(strings.TrimSpace),
+	"strings.TrimPrefix": wrapNative(strings.TrimPrefix),
+	"strings.TrimSuffix": wrapNative(strings.TrimSuffix),
+	"strings.Split":      wrapNative(strings.Split),
+	"strings.Join":       wrapNative(strings.Join),
+	"strings.HasPrefix":  wrapNative(strings.HasPrefix),
+	"strings.HasSuffix":  wrapNative(strings.HasSuffix),
+	"strings.EqualFold":  wrapNative(strings.EqualFold),
+	"strings.Fields":     wrapNative(strings.Fields),
+	"strconv.ParseInt":   wrapNative(strconv.ParseInt),
+	"strconv.ParseUint":  wrapNative(strconv.ParseUint),
+	"strconv.ParseFloat": wrapNative(strconv.ParseFloat),
+	"strconv.Atoi":       wrapNative(strconv.Atoi),
+	"strconv.Itoa":       wrapNative(strconv.Itoa),
+	"strconv.FormatInt":  wrapNative(strconv.FormatInt),
+	"strconv.FormatUint": wrapNative(strconv.FormatUint),
+	"strconv.FormatFloat": wrapNative(func(f float64, fmtc byte, prec, bitSize int) string {
+		return strconv.FormatFloat(f, fmtc, prec, bitSize)
+	}),
+	"strconv.Quote":                  wrapNative(strconv.Quote),
+	"html.EscapeString":              wrapNative(html.EscapeString),
+	"html.UnescapeString":            wrapNative(html.UnescapeString),
 	"unicode/utf8.RuneCountInString": wrapNative(utf8.RuneCountInString),
 	"unicode/utf8.ValidString":       wrapNative(utf8.ValidString),
 	"unicode/utf8.RuneLen":           wrapNative(utf8.RuneLen),
@@ -551,11 +553,20 @@ func init() {
 	intrinsics["sync/atomic.CompareAndSwapUint32"] = atomicCAS
 	intrinsics["sync/atomic.CompareAndSwapInt64"] = atomicCAS
 	intrinsics["sync/atomic.CompareAndSwapUint64"] = atomicCAS
-	intrinsics["(*sync.Mutex).Lock"] = func(in *Interp, caller *frame, fn *ssa.Function, args []Value) Value { in.syncUse("Mutex.Lock"); return nil }
+	intrinsics["(*sync.Mutex).Lock"] = func(in *Interp, caller *frame, fn *ssa.Function, args []Value) Value {
+		in.syncUse("Mutex.Lock")
+		return nil
+	}
 	intrinsics["(*sync.Mutex).Unlock"] = func(in *Interp, caller *frame, fn *ssa.Function, args []Value) Value { return nil }
-	intrinsics["(*sync.RWMutex).Lock"] = func(in *Interp, caller *frame, fn *ssa.Function, args []Value) Value { in.syncUse("RWMutex.Lock"); return nil }
+	intrinsics["(*sync.RWMutex).Lock"] = func(in *Interp, caller *frame, fn *ssa.Function, args []Value) Value {
+		in.syncUse("RWMutex.Lock")
+		return nil
+	}
 	intrinsics["(*sync.RWMutex).Unlock"] = func(in *Interp, caller *frame, fn *ssa.Function, args []Value) Value { return nil }
-	intrinsics["(*sync.RWMutex).RLock"] = func(in *Interp, caller *frame, fn *ssa.Function, args []Value) Value { in.syncUse("RWMutex.RLock"); return nil }
+	intrinsics["(*sync.RWMutex).RLock"] = func(in *Interp, caller *frame, fn *ssa.Function, args []Value) Value {
+		in.syncUse("RWMutex.RLock")
+		return nil
+	}
 	intrinsics["(*sync.RWMutex).RUnlock"] = func(in *Interp, caller *frame, fn *ssa.Function, args []Value) Value { return nil }
 	intrinsics["(*sync.WaitGroup).Add"] = func(in *Interp, caller *frame, fn *ssa.Function, args []Value) Value { return nil }
 	intrinsics["(*sync.WaitGroup).Done"] = func(in *Interp, caller *frame, fn *ssa.Function, args []Value) Value { return nil }
@@ -750,7 +761,9 @@ func init() {
 		in.assumeTerm(in.st.Cmp(term.OULt, t, in.st.BVC(uint64(n), 64)))
 		return in.fromTerm(t, intInfo{64, true})
 	}
-	intrinsics["os.ReadFile"] = func(in *Interp, caller *frame, fn *ssa.Function, args []Value) Value { return in.vfsReadFile(fn, args[0]) }
+	intrinsics["os.ReadFile"] = func(in *Interp, caller *frame, fn *ssa.Function, args []Value) Value {
+		return in.vfsReadFile(fn, args[0])
+	}
 	// os.Open / io.ReadAll / (*os.File).Close on the virtual file system (used by the repository's test helpers)
 	intrinsics["os.Open"] = func(in *Interp, caller *frame, fn *ssa.Function, args []Value) Value {
 		r := in.vfsReadFile(fn, args[0]).(Tuple)
@@ -836,7 +849,9 @@ func init() {
 	intrinsics["path/filepath.Walk"] = func(in *Interp, caller *frame, fn *ssa.Function, args []Value) Value {
 		return in.vfsWalk(caller, fn, args[0], args[1])
 	}
-	intrinsics["errors.Is"] = func(in *Interp, caller *frame, fn *ssa.Function, args []Value) Value { return in.errorsIs(caller, args[0].(Iface), args[1].(Iface)) }
+	intrinsics["errors.Is"] = func(in *Interp, caller *frame, fn *ssa.Function, args []Value) Value {
+		return in.errorsIs(caller, args[0].(Iface), args[1].(Iface))
+	}
 	intrinsics["errors.As"] = func(in *Interp, caller *frame, fn *ssa.Function, args []Value) Value {
 		return in.errorsAs(caller, args[0].(Iface), args[1].(Iface))
 	}
